@@ -16,11 +16,11 @@ PROPS = {
         technique="Lean 4: Hoare-style specifications of every lexer function (ring-buffer credit invariant, consumption accounting, fuel adequacy), structural induction over atom texts / digit strings / terms, model/implementation correspondence, property oracle on the real reader and writer",
         lean_module="PrologVerif.Properties.C06",
         ns="PrologVerif.C06",
-        streams=[dict(name="c06.lex", quick=4000, thorough=40000),
-                 dict(name="c06.atoms", quick=3000, thorough=40000),
-                 dict(name="c06.numbers", quick=6000, thorough=80000),
-                 dict(name="c06.terms", quick=6000, thorough=80000)],
-        rule="c06.lex: exhaustive code points < 0x250 and a class-covering set, all pairs over a 40-character alphabet (thorough: all triples over 18), token-shaped fragments with suffixes, random texts over all of Unicode; non-trivial = at least two tokens or an invalid/quoted/float/double-quoted token. c06.atoms: the same scopes as atom texts plus a word list and random texts; non-trivial = the atom needs quotes or has at least two characters. c06.numbers: boundary grid and random 64-bit integers, floats from random bits / subnormals / powers of two and ten +-3 ulp / short decimals / extremes, decimal texts at and next to exact midpoints of adjacent floats, literals in all bases around 2^63 and 2^64; non-trivial = the text denotes a number. c06.terms: random terms (depth <= 5) over atoms of every lexical class, operators of the current table as atoms/functors, negative numbers, -0.0, lists, partial lists, curly terms, variables x 0..4 random op/3 directives (any specifier, 16 priorities, 32 names incl. ',' '|' [] {} e E) x double_quotes in {codes, chars, atom} x {writeq, write_canonical, write_term quoted(true)}; '$VAR'(N) only under write_canonical; non-trivial = the text contains a quoted atom or the term has a compound written in operator notation; distinct = distinct case text",
+        streams=[dict(name="c06.lex", quick=4000, thorough=30000),
+                 dict(name="c06.atoms", quick=3000, thorough=20000),
+                 dict(name="c06.numbers", quick=6000, thorough=40000),
+                 dict(name="c06.terms", quick=5000, thorough=30000)],
+        rule="c06.lex: exhaustive code points < 0x250 and a class-covering set, all pairs over a 40-character alphabet (thorough: all triples over 18), token-shaped fragments with suffixes, random texts over all of Unicode; non-trivial = at least two tokens or an invalid/quoted/float/double-quoted token. c06.atoms: the same scopes as atom texts plus a word list and random texts; non-trivial = the atom needs quotes or has at least two characters. c06.numbers: boundary grid and random 64-bit integers, floats from random bits / subnormals / powers of two and ten +-3 ulp / short decimals / extremes, decimal texts at and next to exact midpoints of adjacent floats, literals in all bases around 2^63 and 2^64; non-trivial = the text denotes a number. c06.terms: exhaustive small scope first (every pair context operator x operand operator over the 7 specifiers x 3 priority relations x argument positions x 4 leaf sets incl. operator atoms, negative numbers and -0.0; one name as prefix and infix/postfix operator at once: 2986 cases), then random terms (depth <= 5) over atoms of every lexical class, operators of the current table as atoms/functors, negative numbers, -0.0, lists, partial lists, curly terms, variables x 0..4 random op/3 directives (any specifier, 16 priorities, 32 names incl. ',' '|' [] {} e E) x double_quotes in {codes, chars, atom} x {writeq, write_canonical, write_term quoted(true)}; '$VAR'(N) only under write_canonical; non-trivial = the text contains a quoted atom or the term has a compound written in operator notation; distinct = distinct case text",
         trusted=[
             "modelled (hand-written, correspondence-checked): engine/lexer.go (all of it), engine/parser.go Parser.Term/term/prefix/infix/op/term0/term0Atom/variable/openClose/atom/name/list/curlyBracketedTerm/functionalNotation/arg/number, integer, float, unquote/unDoubleQuote/validEscapeSequences, tokenRingBuffer; engine/atom.go Atom.WriteTerm/needQuoted/quote/quotedIdentEscape/letterDigit/graphic; engine/integer.go, float.go, variable.go WriteTerm; engine/compound.go WriteCompound and all writeCompound* functions",
             "regenerated from source on every run: Unicode classes (Ll|Lo|Lm, IsUpper, IsSpace, ToUpper-hex) for all code points >= 0x80 from the Go toolchain's package unicode (Generated/Unicode.lean); the default operator table from bootstrap.pl (Generated/Bootstrap.lean)",
